@@ -173,8 +173,51 @@ def runReqs (keys : List String) : List Req â†’ List V â†’ Nat â†’ List String â
         else "-"
       runReqs keys rest vols' rr' ((s!"{resp.status},{repl},{fg}" ++ "|" ++ listing keys vols') :: acc)
 
+/-! unit-level ops: the byte loops of collision.go and pipe_adapters.go -/
+
+def md5Bytes (b : C01.Bytes) : String := MD5.hex (ByteArray.mk b.toArray)
+
+def parseChunks (s : String) : Option (List C01.Bytes) :=
+  if s == "-" then some [] else
+  (s.splitOn ",").mapM (fun c =>
+    if c == "e" then some [] else
+    match bytesOfHex? c with
+    | some b => if b.size == 0 then none else some b.toList
+    | none => none)
+
+def showCmp : CmpResult â†’ String
+  | .same => "nil"
+  | .collision => "collision"
+  | .corrupt => "corrupt"
+  | _ => "err"
+
+def stepCmp (h expect chunks eof : String) : String :=
+  if h.length != 32 || (eof != "sep" && eof != "last") then "bad-op" else
+  let ex : Option C01.Bytes :=
+    if expect == "-" then some [] else
+    match bytesOfHex? expect with
+    | some b => if b.size == 0 then none else some b.toList
+    | none => none
+  match ex, parseChunks chunks with
+  | some e, some cs => showCmp (compareReaderWithBuf md5Bytes h e e cs)
+  | _, _ => "bad-op"
+
+def stepGwp (n chunks wend : String) : String :=
+  let we : Option PipeEnd :=
+    if wend == "ok" then some .ok else if wend == "ueof" then some .unexpectedEOF
+    else if wend == "notexist" then some .notExist else if wend == "other" then some .other else none
+  match n.toNat?, parseChunks chunks, we with
+  | some bufLen, some cs, some w =>
+    if bufLen > 1048576 then "bad-op" else
+    let (data, err) := getWithPipeBytes bufLen cs.flatten w
+    let cls := match err with | .none => "nil" | .notExist => "notexist" | .other => "other"
+    s!"{data.length},{md5Bytes data},{cls}"
+  | _, _, _ => "bad-op"
+
 def step (line : String) : String :=
   match fields line with
+  | ["c01cmp", h, expect, chunks, eof] => stepCmp h expect chunks eof
+  | ["c01gwp", n, chunks, wend] => stepGwp n chunks wend
   | ["c01", vs, rs] =>
     match (vs.splitOn "/").mapM parseVol, (rs.splitOn ";").mapM parseReq with
     | some vols, some reqs =>
